@@ -314,7 +314,7 @@ pub fn c11_inputs(ev: Ev, thorough: bool) -> Vec<String> {
         // order of the exact values, whatever the order of the arguments
         let mixed: Vec<&str> = vec![
             "9007199254740992.0", "9007199254740993", "9007199254740994.0", "9007199254740992", "(-9007199254740993)", "(-9007199254740992.0)",
-            "9223372036854775807", "9223372036854775808", "9223372036854774784.0", "(-9223372036854775807-1)", "(-9223372036854775808.0)",
+            "9223372036854775807", "9223372036854775808.0", "9223372036854774784.0", "(-9223372036854775807-1)", "(-9223372036854775808.0)",
         ];
         lists(&mixed, 2, if thorough { 4 } else { 3 }, &mut ls);
     }
